@@ -223,10 +223,69 @@ func GenShared(family string, seed int64, idx int) *SScenario {
 		o.horizon = 40 * SEC
 		o.noMgrP = 0.1
 		return genSharedBig(rng, family, o)
+	case "sh-acquire": // C09: instance 0 keeps a constant demand; faults come first, peers crash or drop demand at some instant
+		return genAcquire(rng, family)
 	default:
 		return nil
 	}
 	return genShared(rng, family, o)
+}
+
+func genAcquire(rng *rand.Rand, name string) *SScenario {
+	sc := &SScenario{Name: name, Gen: pick(rng, 1, 2), Seed: rng.Int63n(1 << 40)}
+	n := pick(rng, 1, 2, 3)
+	factor := pick(rng, int64(1), 1, 10)
+	parts := int64(pick(rng, 1, 2, 3, 5, 8))
+	shared := parts * factor
+	maxint := pick(rng, int64(2), 20, 100, 500)
+	for i := 0; i < n; i++ {
+		in := SInst{Factor: factor, MaxInt: maxint, HasMgr: true, Reserved: pick(rng, int64(0), 5), Shared: shared}
+		nf := rng.Intn(4) // faults first, then clean calls
+		for j := 0; j < nf; j++ {
+			lat := pick(rng, int64(0), 1*MS+7, 40*MS+13, 700*MS+3) + rng.Int63n(1000)
+			in.Leases = append(in.Leases, LeaseScript{Latency: lat, When: lat / 2, Mode: 1 + rng.Intn(2)})
+		}
+		lat := pick(rng, int64(0), 1*MS+7, 40*MS+13, 300*MS+3) + rng.Int63n(1000)
+		in.Leases = append(in.Leases, LeaseScript{Latency: lat, When: pick(rng, int64(0), lat/2, lat)})
+		sc.Insts = append(sc.Insts, in)
+	}
+	var steps []SStep
+	t := int64(0)
+	for i := 0; i < n; i++ {
+		t += 3*MS + 7
+		if sc.Gen == 1 {
+			steps = append(steps, SStep{At: t, Inst: i, Kind: "provision", A: []int64{1, 1}})
+			t += 1*MS + 3
+		}
+		steps = append(steps, SStep{At: t, Inst: i, Kind: "start", A: []int64{1}})
+		t += 1*MS + 3
+		want := int64(1 + rng.Intn(int(parts)+1))
+		steps = append(steps, SStep{At: t, Inst: i, Kind: "giveme", A: []int64{sc.Insts[i].Reserved + want*factor - int64(rng.Intn(int(factor)))}})
+	}
+	// peers die or drop their demand somewhere in the first 20 s
+	for i := 1; i < n; i++ {
+		at := t + int64(rng.Intn(20000))*MS + 11
+		if chance(rng, 0.5) {
+			steps = append(steps, SStep{At: at, Inst: i, Kind: "crash"})
+		} else {
+			steps = append(steps, SStep{At: at, Inst: i, Kind: "giveme", A: []int64{0}})
+		}
+	}
+	end := t + 75*SEC
+	for t < end {
+		t += 5*SEC + 61
+		steps = append(steps, SStep{At: t, Inst: 0, Kind: "probe"})
+	}
+	for i := 0; i < n; i++ {
+		t += 1*MS + 17
+		steps = append(steps, SStep{At: t, Inst: i, Kind: "stop"})
+	}
+	t += 600*MS + 29
+	steps = append(steps, SStep{At: t, Inst: 0, Kind: "probe"})
+	sort.SliceStable(steps, func(a, b int) bool { return steps[a].At < steps[b].At })
+	sc.Steps = steps
+	sc.Tail = 20 * SEC
+	return sc
 }
 
 // genSharedBig does not cap the partition count.
